@@ -88,4 +88,56 @@ def grammar_value(v):
     """Values the parser can deliver as a literal (default, example value,
     attribute): never a tuple or bytes (DESIGN: kinds derived from the grammar
     docstrings of the parser actions)."""
-    return not isinstance(v, (tuple, bytes))
+    return not isinstance(v, (tuple, bytes)) and v is not S.NOT_SET
+
+
+# ------------------------------------------------------------ type arguments (lang_ref.rst, "Primitive types" table)
+# What the language reference lets a spec write as arguments of a primitive / list / map type.  A constructor
+# call with anything else must be refused with ParameterError (which the IR generator turns into a spec error);
+# no other exception may leave the constructor (C03).
+
+def ir_int_args_ok(t, lo, hi):
+    """min_value / max_value: integers inside the range of the integer type"""
+    return ((lo is None or (S.is_integral(lo) and lo >= t.minimum))
+            and (hi is None or (S.is_integral(hi) and hi <= t.maximum)))
+
+
+def ir_float_bound_ok_lo(t, x):
+    return x is None or (S.is_real(x) and S.float_convertible(x)
+                         and not (t.minimum is not None and S.as_float(x) < t.minimum))
+
+
+def ir_float_bound_ok_hi(t, x):
+    return x is None or (S.is_real(x) and S.float_convertible(x)
+                         and not (t.maximum is not None and S.as_float(x) > t.maximum))
+
+
+def ir_float_args_ok(t, lo, hi):
+    """min_value / max_value: real numbers representable as a double, inside the range of the float type"""
+    return ir_float_bound_ok_lo(t, lo) and ir_float_bound_ok_hi(t, hi)
+
+
+def ir_string_args_ok(lo, hi, pattern):
+    """min_length >= 0, max_length >= 1, max_length >= min_length, pattern a regular expression"""
+    return (S.opt_int_ge(lo, 0) and S.opt_int_ge(hi, 1)
+            and (not lo or not hi or hi >= lo)
+            and (not pattern or (isinstance(pattern, str) and S.pattern_compiles(r"\A(?:" + pattern + r")\Z"))))
+
+
+def ir_list_args_ok(lo, hi):
+    """min_items >= 0, max_items >= 1, max_items >= min_items"""
+    return (S.opt_int_ge(lo, 0) and S.opt_int_ge(hi, 1)
+            and (not lo or not hi or hi >= lo))
+
+
+def param_outcome(ok):
+    if ok:
+        return Ret(None)
+    return Raise(ir.ParameterError)
+
+
+def ir_list_accepts_container(t, v):
+    """an example value for a list: a list within the declared item counts"""
+    return (isinstance(v, list)
+            and (t.max_items is None or len(v) <= t.max_items)
+            and (t.min_items is None or len(v) >= t.min_items))
